@@ -109,6 +109,23 @@ Theorem c18_leaf_means_read_by_name : forall (A : Type) (mean : Z -> Z -> A) t s
 Proof. exact leaf_means_by_name. Qed.
 Print Assumptions c18_leaf_means_read_by_name.
 
+(* audit 3, item 13: the model used to answer ROk on a statistics file without any gene, where the real
+   aggregate_stats raises "ValueError: zero-size array to reduction operation minimum which has no identity"
+   (choose_int_dtype((result['gt0'].min(), ...)) on an array of n_genes = 0 entries).  Run here on a generated
+   taxonomy: a file with `sum` of shape (n, 0) makes get_leaf_means raise that ValueError with and without
+   for_marker_selection (also when a cluster is missing from cluster_to_row); a 1-gene file is accepted.  The error
+   branch is now in the model (agg_check, code 23 = RE_ZEROGENES, after the KeyError of a missing leaf, n_genes
+   being read off the first leaf of the population).  All the theorems of this section are conditional on
+   `get_leaf_means ... = ROk m`, so none needed a new hypothesis; what an accepted file satisfies is stated here:
+   the `sum` row of the first leaf of every aggregated population is not empty (zero_row = false), i.e. the file
+   has at least one gene.  c18_refside_example_zero_genes: the excluded file is exactly where Python raises. *)
+Theorem c18_leaf_means_accepted_has_genes : forall (A : Type) (mean : Z -> Z -> A) t sf fs m,
+  get_leaf_means A mean t sf fs = ROk m ->
+  exists cs, raw_stats sf (sf_c2r sf) = Some cs /\
+    forall l0 rest, In (l0 :: rest) (map snd (concat (as_leaves t))) -> zero_row cs l0 = false.
+Proof. exact leaf_means_accepted_has_genes. Qed.
+Print Assumptions c18_leaf_means_accepted_has_genes.
+
 (* ... and for EVERY row order rp and column order cp of a well-formed file (sf_wf: what the writers produce),
    the rearranged file -- rows, cluster_to_row, columns and col_names moved together -- reads the same by name
    (this theorem), is accepted whenever the original is, and gives the same leaf means by name (the next one) *)
@@ -256,6 +273,15 @@ Example c18_refside_example_leaf_means :
   get_leaf_means Z ex_mean ex_tree ex_sf false =
   ROk (mk_rmat [2; 3; 5] [12; 10; 11] [[8; 0; 24]; [20; 40; 60]; [4; 8; 12]] Log2CPM).
 Proof. exact ex_leaf_means. Qed.
+(* the example file without any gene is well formed and refused with code 23 (ValueError), whatever
+   for_marker_selection; with one gene it is accepted *)
+Example c18_refside_example_zero_genes :
+  sf_wf ex_sf_nogene /\
+  get_leaf_means Z ex_mean ex_tree ex_sf_nogene false = RErr RE_ZEROGENES /\
+  get_leaf_means Z ex_mean ex_tree ex_sf_nogene true = RErr RE_ZEROGENES /\
+  get_leaf_means Z ex_mean ex_tree ex_sf_onegene true =
+  ROk (mk_rmat [2; 3; 5] [12] [[8]; [20]; [4]] Log2CPM).
+Proof. exact ex_zero_genes. Qed.
 Example c18_refside_example_file_wf :
   sf_wf ex_sf /\ Permutation [2%nat; 0%nat; 3%nat; 1%nat] (seq 0 (length (sf_n ex_sf))) /\
   Permutation [1%nat; 2%nat; 0%nat] (seq 0 (length (sf_cols ex_sf))).
